@@ -35,20 +35,10 @@ pub open spec fn tree_namespace() -> Seq<u8> {
          0x8B, 0x5A, 0xAD, 0x8B, 0x58, 0x81, 0xBF, 0xC0, 0xAD, 0xB5, 0xEF, 0x38, 0xA3, 0x27, 0x5B, 0x9C]
 }
 pub open spec fn spec_signable(hash: Seq<u8>, length: u64, fork: u64) -> Seq<u8> { tree_namespace() + hash + le_bytes(length, 8) + le_bytes(fork, 8) }
-/// Ed25519 verification predicate and signing function: uninterpreted
-pub uninterp spec fn sig_ok(pk: VerifyingKey, msg: Seq<u8>, sig: Signature) -> bool;
-pub uninterp spec fn spec_sign(sk: SigningKey, msg: Seq<u8>) -> Signature;
+/// Ed25519 verification predicate and signing function (uninterpreted in the model of the dependency, shim/crypto.rs)
+pub open spec fn sig_ok(pk: VerifyingKey, msg: Seq<u8>, sig: Signature) -> bool { pk.spec_verify(msg, sig) }
+pub open spec fn spec_sign(sk: SigningKey, msg: Seq<u8>) -> Signature { sk.spec_sign_msg(msg) }
 #[verifier::external_body]
 pub broadcast proof fn axiom_sign_verifies(sk: SigningKey, msg: Seq<u8>)
     ensures sig_ok(sk.spec_verifying_key(), msg, #[trigger] spec_sign(sk, msg)) {}
-
-#[verifier::external_body]
-pub fn verify(public: &VerifyingKey, msg: &[u8], sig: Option<&Signature>) -> (r: Result<(), HypercoreError>)
-    ensures (r is Ok) == (sig is Some && sig_ok(*public, msg@, *sig->Some_0))
-{ unimplemented!() }
-#[verifier::external_body]
-pub fn sign(signing_key: &SigningKey, msg: &[u8]) -> (r: Signature)
-    ensures r == spec_sign(*signing_key, msg@)
-{ unimplemented!() }
 } // mod crypto
-pub use crypto::{sign, verify};
